@@ -14,8 +14,8 @@
   support is a mode: `discrete_uniform_mode_isMode`).
 -/
 import Statrs.Real.Simp
-import Statrs.Draft.Spec.Location
-import Statrs.Draft.Lemmas.LocationPins
+import Statrs.Spec.Location
+import Statrs.Lemmas.LocationPins
 import Statrs.Gen.D_discrete_uniform
 import Statrs.Gen.D_erlang
 import Statrs.Gen.D_exponential
